@@ -198,7 +198,7 @@ fn gen_cases(seed: u64, batch: usize, ngrammars: usize) -> Vec<Case> {
     }
     // recursive type shapes: the element of a vector / optional refers back to it (boxed
     // elements, both recursion directions)
-    for g in 0..ngrammars / 2 {
+    for g in 0..ngrammars {
         let tape = gen::g_rec().new_tree(&mut runner).unwrap().current();
         let inputs = gen::tapes(8..12, 40).new_tree(&mut runner).unwrap().current();
         let glr = g % 3 == 2;
